@@ -2,6 +2,8 @@ package engine
 
 import (
 	"fmt"
+	"go/token"
+	"go/types"
 	"os"
 	"os/exec"
 	"runtime/debug"
@@ -56,9 +58,15 @@ type Config struct {
 	// Intrinsic handles harness intrinsics (by function name) before anything else.
 	Intrinsic func(r *Run, fn *ssa.Function, args []Value, site ssa.Instruction) (Value, bool)
 	Debug     bool
+	// Native: pure library functions executed natively on concrete arguments.
+	Native *NativeTable
+	// Invoke handles interface method calls whose dynamic type has no SSA method (stub values).
+	Invoke func(r *Run, recv Iface, method *types.Func, args []Value) (Value, bool)
 	// NoMapPermute makes map iteration follow insertion order only (otherwise the
 	// order of every range over a map with <= 3 entries is a choice over all permutations).
 	NoMapPermute bool
+	// NoMerge disables the if-conversion of pure short-circuit regions.
+	NoMerge bool
 }
 
 // Stats aggregates an exploration.
@@ -70,6 +78,7 @@ type Stats struct {
 	Truncated    int
 	Unsupported  map[string]int
 	UnwindFail   int
+	UnwindWhere  map[string]int
 	Steps        int64
 	Queries      int
 	Sat          int
@@ -101,6 +110,12 @@ func (s *Stats) Add(o *Stats) {
 	}
 	for k, v := range o.Unsupported {
 		s.Unsupported[k] += v
+	}
+	for k, v := range o.UnwindWhere {
+		if s.UnwindWhere == nil {
+			s.UnwindWhere = map[string]int{}
+		}
+		s.UnwindWhere[k] += v
 	}
 }
 
@@ -194,6 +209,8 @@ type Run struct {
 	// GlobalHook, when set, sees every access to a package-level variable.
 	GlobalHook func(g *ssa.Global)
 	Trunc     bool
+	Merges    int
+	ufs       map[string]bool
 }
 
 type SymDecl struct {
@@ -576,6 +593,10 @@ func (ex *Explorer) runOne(sol *Solver, prefix []Decision, body func(r *Run)) {
 					ex.Stats.Truncated++
 				} else {
 					ex.Stats.UnwindFail++
+					if ex.Stats.UnwindWhere == nil {
+						ex.Stats.UnwindWhere = map[string]int{}
+					}
+					ex.Stats.UnwindWhere[e.Reason]++
 				}
 			case "exit":
 				ex.Stats.Completed++
@@ -601,3 +622,25 @@ func (s *Stats) UnsupportedList() []string {
 	sort.Strings(out)
 	return out
 }
+
+// UF applies an uninterpreted function (declared on first use in this run) to atom/BV arguments.
+func (r *Run) UF(name string, res Sort, args []string) *Term {
+	if r.ufs == nil {
+		r.ufs = map[string]bool{}
+	}
+	if !r.ufs[name] {
+		r.ufs[name] = true
+		sorts := make([]string, len(args))
+		for i := range sorts {
+			sorts[i] = "(_ BitVec 64)"
+		}
+		r.send(fmt.Sprintf("(declare-fun %s (%s) %s)", name, strings.Join(sorts, " "), res.SMT()))
+	}
+	if len(args) == 0 {
+		return &Term{Sort: res, S: name}
+	}
+	return r.Name(&Term{Sort: res, S: "(" + name + " " + strings.Join(args, " ") + ")"})
+}
+
+// StrLess is a < b on bytes-model strings.
+func (r *Run) StrLess(a, b Str) *Term { return r.strCmp(token.LSS, a, b) }
